@@ -172,3 +172,69 @@ def check(res, tier):
     res.add("evaluations", 2 * n)
     res.cov["file_trees"] = n
     return n
+
+
+# ---- `cfn-guard test --dir`: which test files are run against which rules file ----------------
+
+PREFIXES = ["r", "r_more", "rx", "ab", "abc", "s3", "s3_bucket", "s3_bucket_encryption", "a"]
+
+
+def test_dirs(res, tier):
+    """directories with rules files whose names are prefixes of one another and tests named after them"""
+    rnd = random.Random(seed() + 1616)
+    wd = cli.Workdir("testdirs")
+    tr = os.path.join(WORK, "trace_testdirs.ndjson")
+    n = 40 if tier == "quick" else 600
+    keep = {}
+    with open(tr, "w") as f:
+        for i in range(1, n + 1):
+            root = os.path.join(wd.path, "d%d" % i)
+            dirs = []
+            for dname in ([""] + (["sub"] if rnd.random() < 0.4 else [])):
+                d = os.path.join(root, dname) if dname else root
+                os.makedirs(os.path.join(d, "tests"), exist_ok=True)
+                prefixes = rnd.sample(PREFIXES, rnd.randint(1, 4))
+                rules, tests = [], []
+                for k, p in enumerate(prefixes):
+                    rn = p + (".ruleset" if rnd.random() < 0.2 else ".guard")
+                    rule = "rule_%s" % p
+                    open(os.path.join(d, rn), "w").write("rule %s {\n  id exists\n}\n" % rule)
+                    rules.append(rn)
+                    if rnd.random() < 0.85:
+                        tn = p + "_tests" + rnd.choice([".yaml", ".yaml", ".yml", ".json"])
+                        case = {"name": tn, "input": {"id": 1}, "expectations": {"rules": {rule: "PASS"}}}
+                        open(os.path.join(d, "tests", tn), "w").write(json.dumps([case]))
+                        tests.append(tn)
+                dirs.append({"path": os.path.realpath(d), "rules": [cps(x) for x in rules], "tests": [cps(x) for x in tests]})
+            rc, so, se = cli.run(["test", "--dir", root, "-o", "json"])
+            ran = []
+            try:
+                for rep in json.loads(so):
+                    rf = os.path.realpath(rep["rule_file"])
+                    dnum = next((k + 1 for k, d in enumerate(dirs) if os.path.dirname(rf) == d["path"]), 0)
+                    for tc in rep.get("test_cases", []):
+                        ran.append({"dir": dnum, "rule": cps(os.path.basename(rf)), "test": cps(tc["name"])})
+            except (ValueError, KeyError, TypeError):
+                pass
+            keep[i] = {"args": ["test", "--dir", "d%d" % i, "-o", "json"], "stdout": so[:2500], "stderr": se[:300],
+                       "layout": [{"rules": [cps_str(x) for x in d["rules"]], "tests": [cps_str(x) for x in d["tests"]]} for d in dirs]}
+            f.write(json.dumps({"i": i, "dirs": [{"rules": d["rules"], "tests": d["tests"]} for d in dirs], "ran": [r for r in ran if r["dir"] > 0], "exit": rc}) + "\n")
+    wd.close()
+    r = tlc("TraceFiles", env={"TRACE": tr}, workers=1, timeout=3000, tag="tr_testdirs", heap="4g")
+    if "TRACE-REJECTED" in r["out"] or not r["ok"]:
+        log(r["out"][-3000:])
+        raise ToolError("TraceFiles did not consume the test-dir trace")
+    res.add("states", r["distinct"])
+    res.add("transitions", r["states"])
+    seen = res.cov.setdefault("relations", {})
+    for t in tlc_tuples(r["out"], "RELATE"):
+        i, verdict, name = t[1], t[2], t[3]
+        res.add("relations_checked")
+        seen[name] = seen.get(name, 0) + 1
+        if verdict == "ok":
+            res.add("traces_validated_against_impl")
+        else:
+            res.violation(name, keep[i])
+    os.remove(tr)
+    res.add("evaluations", n)
+    return n
